@@ -128,7 +128,7 @@ CHECKS.update({
          'from inside the simulation task -, calc_output, synchronous initialisation, main task) and demands that run_forever(), Circuit.error, a later shutdown() and run() report exactly it (cancellation = normal stop; '
          'otherwise the first failing supporting task), that non-fatal kinds (unknown event type, missing parameter, failing init_async / stop / stop_async) change nothing and the circuit stays ready, that later abort() calls never '
          'replace the error and that the circuit is never ready again.',
-         TRUSTED + '; a synchronous initialisation routine failing inside an early initialisation triggered by an external event is only required to make the start-up fail (with any error)', '6 C09'),
+         TRUSTED + '; a synchronous initialisation routine failing inside an early initialisation triggered by an external event is fatal like any other (the sender gets the exception AND the simulation stops: repaired in edzed by 7070d85, before that the monitor tolerated such runs too leniently)', '6 C09'),
  'C14': (MC, 'TLC model checking of Lifecycle.tla (ReadyOnlyWhileRunning) + ExtEvent.send() attempts in every phase with all data shapes on the real simulator, batch trace validation against LifecycleTrace.tla (source rule on character codes)',
          'ExtEvent.send() is attempted before the task exists, before it has run, during (slow) asynchronous initialisation, while running, in the very loop step of the stop request, during a slow asynchronous clean-up and after the stop, '
          'for abort(), SIGTERM and control events; the monitor computes readiness from the begin / abort / fault records and demands delivery with the handler\'s data iff ready, EdzedInvalidState and no delivery otherwise; the delivered '
